@@ -813,11 +813,49 @@ impl<'de> DeserializeSeed<'de> for SumSeed {
 		d.deserialize_any(SumV)
 	}
 }
+/// `Sum` reached through a particular serde entry point at the top level (what a typed target such as `f64`, `u128`, `String`,
+/// `Option<_>` would call); below the top level everything goes through `deserialize_any` again.
+pub struct SumTop(pub &'static str);
+impl<'de> DeserializeSeed<'de> for SumTop {
+	type Value = u64;
+	fn deserialize<D: Deserializer<'de>>(self, d: D) -> Result<u64, D::Error> {
+		match self.0 {
+			"f64" => d.deserialize_f64(SumV),
+			"f32" => d.deserialize_f32(SumV),
+			"u64" => d.deserialize_u64(SumV),
+			"i64" => d.deserialize_i64(SumV),
+			"i32" => d.deserialize_i32(SumV),
+			"u128" => d.deserialize_u128(SumV),
+			"i128" => d.deserialize_i128(SumV),
+			"str" => d.deserialize_str(SumV),
+			"string" => d.deserialize_string(SumV),
+			"bytes" => d.deserialize_bytes(SumV),
+			"byte_buf" => d.deserialize_byte_buf(SumV),
+			"option" => d.deserialize_option(SumV),
+			"seq" => d.deserialize_seq(SumV),
+			"map" => d.deserialize_map(SumV),
+			"ignored" => d.deserialize_ignored_any(SumV),
+			_ => d.deserialize_any(SumV),
+		}
+	}
+}
 struct SumV;
 impl<'de> Visitor<'de> for SumV {
 	type Value = u64;
 	fn expecting(&self, f: &mut fmt::Formatter) -> fmt::Result {
 		write!(f, "anything")
+	}
+	fn visit_none<E: de::Error>(self) -> Result<u64, E> {
+		Ok(1)
+	}
+	fn visit_some<D: Deserializer<'de>>(self, d: D) -> Result<u64, D::Error> {
+		d.deserialize_any(SumV)
+	}
+	fn visit_i128<E: de::Error>(self, v: i128) -> Result<u64, E> {
+		Ok(v as u64)
+	}
+	fn visit_u128<E: de::Error>(self, v: u128) -> Result<u64, E> {
+		Ok(v as u64)
 	}
 	fn visit_unit<E: de::Error>(self) -> Result<u64, E> {
 		Ok(1)
